@@ -95,7 +95,7 @@ var shapes = func() []shape {
 }()
 
 // second-argument shapes
-var bShapes = []string{"i1", "nil", "s", "l", "m", "im3", "ls", "st"}
+var bShapes = []string{"i1", "nil", "s", "l", "m", "im3"}
 
 // first-argument shapes of the quick tier (thorough: all): one representative per kind
 var aQuick = []string{"nil", "true", "i1", "im3", "u8", "imax", "f", "nan", "s0", "s", "sbad", "sfmt", "named",
